@@ -333,14 +333,13 @@ func accepts(p patSpec, seen interface{}, isCD bool, objs []interface{}) tri {
 	case "Kind":
 		return hasKindTri(seen, kindTable[p.Param])
 	case "Equal":
-		// comparable pattern values only: == never panics here. Values that are
-		// not == but deeply equal (another pointer to an equal struct) are left open.
+		// comparable pattern values only: == never panics here.
 		if equalTable[p.Param] == seen {
 			return yes
 		}
-		if equalTable[p.Param] != nil && seen != nil && reflect.DeepEqual(equalTable[p.Param], seen) {
-			return unspec
-		}
+		// "equality" is Go's == on the two values: another pointer to an equal struct, or a
+		// struct holding a different pointer to an equal target, is NOT equal (a DeepEqual
+		// based test would let the equality pattern swallow values meant for later patterns).
 		if equalTable[p.Param] == nil && isNilTri(seen) == unspec {
 			return unspec // Equal(nil) against a typed nil pointer / nil slice
 		}
